@@ -328,6 +328,11 @@ PoolC15edges ==
     \cup {Call(f, <<s, a>>) : f \in {"substring-before", "substring-after", "starts-with", "ends-with", "contains"},
                                s \in EdgeStrs, a \in {Lit(""), Lit("a"), Lit("abcd"), Rel1("child", NTName("zz"))}}
     \cup {Filter(Rel1("child", NTAny), <<a>>, <<>>) : a \in EdgeNums} \cup {Path(FALSE, <<Step("child", NTAny, <<a>>)>>) : a \in EdgeNums}
+    \* strings that are ALMOST numbers, through every conversion to a number
+    \cup UNION {{Call("number", <<s>>), Bin("<", s, N(1)), Bin("=", N(1), s), Bin("+", s, N(1)), Neg(s), Call("floor", <<s>>),
+                  Call("substring", <<Lit("abc"), s>>), Call("sum", <<s>>), Path(FALSE, <<Step("child", NTAny, <<Bin(">", SelfDot, s)>>)>>)}
+                 : s \in {Lit("-"), Lit(" - "), Lit("."), Lit("-."), Lit("+"), Lit("+1"), Lit("e"), Lit("1e"), Lit("1e3"), Lit("1."), Lit(".5"),
+                           Lit("-.5"), Lit("--1"), Lit("1-"), Lit("0x1"), Lit("1 2"), Lit(" "), Lit("Infinity"), Lit("NaN"), Lit("-0")}}
     \cup {Call("string-join", <<Rel1("child", NTName("zz")), Lit(",")>>), Call("sum", <<Rel1("child", NTName("zz"))>>),
           Call("reverse", <<Rel1("child", NTName("zz"))>>), Call("concat", <<Lit(""), Lit("")>>)}
 AllAxisNames == Axes \cup {"namespace"}
